@@ -841,8 +841,40 @@ func intrHasSuffix(e *Exec, st *State, fr *Frame, args []Val, in ssa.Instruction
 	return []callRes{{st, t}}
 }
 
+// trimTagged: TrimPrefix / TrimSuffix of a string whose segment list starts (ends) with a literal that decides
+// the question; the result keeps its segment list.
+func (e *Exec) trimTagged(st *State, s, p *StringVal, suffix bool) (*StringVal, bool) {
+	lit, ok := concreteString(p)
+	if !ok || s.Tag == nil || len(s.Tag.Segs) == 0 || lit == "" {
+		return nil, false
+	}
+	segs := append([]StrSeg{}, s.Tag.Segs...)
+	k := 0
+	if suffix {
+		k = len(segs) - 1
+	}
+	if segs[k].Kind != "lit" || len(segs[k].Lit) < len(lit) {
+		return nil, false
+	}
+	if suffix {
+		if !strings.HasSuffix(segs[k].Lit, lit) {
+			return s, true
+		}
+		segs[k].Lit = strings.TrimSuffix(segs[k].Lit, lit)
+	} else {
+		if !strings.HasPrefix(segs[k].Lit, lit) {
+			return s, true
+		}
+		segs[k].Lit = strings.TrimPrefix(segs[k].Lit, lit)
+	}
+	return e.stringFromSegs(st, segs), true
+}
+
 func intrTrimPrefix(e *Exec, st *State, fr *Frame, args []Val, in ssa.Instruction, rt types.Type) []callRes {
 	s, p := args[0].(*StringVal), args[1].(*StringVal)
+	if r, ok := e.trimTagged(st, s, p, false); ok {
+		return []callRes{{st, r}}
+	}
 	t := e.prefixTerm(st, s, p)
 	if t == nil {
 		return intrOpaqueString(e, st, fr, args, in, rt)
@@ -853,6 +885,9 @@ func intrTrimPrefix(e *Exec, st *State, fr *Frame, args []Val, in ssa.Instructio
 
 func intrTrimSuffix(e *Exec, st *State, fr *Frame, args []Val, in ssa.Instruction, rt types.Type) []callRes {
 	s, p := args[0].(*StringVal), args[1].(*StringVal)
+	if r, ok := e.trimTagged(st, s, p, true); ok {
+		return []callRes{{st, r}}
+	}
 	t := e.suffixTerm(st, s, p)
 	if t == nil {
 		return intrOpaqueString(e, st, fr, args, in, rt)
@@ -1070,6 +1105,21 @@ func (e *Exec) splitResult(st *State, elem types.Type, name string, minN int64, 
 
 // splitTagged: Split of a string built from literal and numeric-rendering segments, on a one-byte separator
 // that cannot occur inside a numeric rendering: exact.
+// lacksByte: the path condition carries the marker lacks_<b>(identity of s) (see the spec builtin `lacks`).
+func (e *Exec) lacksByte(st *State, s *StringVal, b byte) bool {
+	id := e.strIdent(s)
+	if id == nil {
+		return false
+	}
+	want := e.C.App(fmt.Sprintf("lacks_%02x", b), BoolS, id...)
+	for _, f := range st.PC {
+		if f == want {
+			return true
+		}
+	}
+	return false
+}
+
 func (e *Exec) splitTagged(st *State, s, sep *StringVal) ([]Val, bool) {
 	lit, ok := concreteString(sep)
 	if !ok || len(lit) != 1 || s.Tag == nil {
@@ -1113,6 +1163,10 @@ func (e *Exec) splitTagged(st *State, s, sep *StringVal) ([]Val, bool) {
 		case "dec", "hex", "HEX":
 			cur = append(cur, sg)
 		case "str":
+			if e.lacksByte(st, sg.S, b) {
+				cur = append(cur, sg)
+				continue
+			}
 			sh, ok := e.knownShape(st, sg.S)
 			if !ok {
 				return nil, false
